@@ -704,7 +704,9 @@ func (mw *mcastWorld) exec(f []string) {
 		atLimit := f[len(f)-1] == "atlimit" && s.kind != "raw"
 		for _, other := range mw.socks {
 			// (polling for this read must not complete another socket's read, which the script completes at its own `poll`)
-			if other != s && other.pending && !other.closed && waitReady(other.ofd, unix.POLLIN, 0) != 0 {
+			// (not only when that read is ready now: a looped-back multicast datagram may become readable a moment later,
+			// during the polls below — seen once in a thorough run as a spurious read-overlap)
+			if other != s && other.pending && !other.closed {
 				atLimit = false
 			}
 		}
